@@ -340,15 +340,15 @@ Definition Fv (b : bank) : Z := b_ins b + b_grp b + b_prog b.
 
 Lemma accrue_credit_le_charge b pf now b' :
   wf_bank b -> valid_curve b -> accrue_interest b pf now = Ok b' ->
-  exists irl, 0 <= irl /\ (b' = b \/ b_asv b' = b_asv b * (ONE + irl) / ONE \/ b_asv b' = b_asv b) /\
+  exists irl, 0 <= irl /\ ((b' = b /\ irl = 0) \/ b_asv b' = b_asv b * (ONE + irl) / ONE \/ (b_asv b' = b_asv b /\ irl = 0)) /\
   (Dv b' - Dv b) + (Fv b' - Fv b) * ONE <= (Lv b' - Lv b) + (b_tls b * b_lsv b / ONE + b_tls b + irl + 1).
 Proof.
   intros (Ha & Hl & Hta & Htl) (Hc & Hv & Hct) H. pose proof ONE_pos as HO.
   pose proof H as H0. apply accrue_inv in H; try assumption.
   assert (HLq : 0 <= b_tls b * b_lsv b / ONE) by (apply Z.div_pos; nia).
   destruct H as [[E ->] | [[Hlt [-> _]] | (dt & A & L & ur & r & irl & irb & F)]].
-  - exists 0. split; [lia|]. split; [left; reflexivity|]. lia.
-  - exists 0. split; [lia|]. split; [right; right; reflexivity|]. unfold Dv, Lv, Fv, set_b_last_update. cbn [b_tas b_asv b_tls b_lsv b_ins b_grp b_prog]. lia.
+  - exists 0. split; [lia|]. split; [left; split; reflexivity|]. lia.
+  - exists 0. split; [lia|]. split; [right; right; split; reflexivity|]. unfold Dv, Lv, Fv, set_b_last_update. cbn [b_tas b_asv b_tls b_lsv b_ins b_grp b_prog]. lia.
   - pose proof F as F0. destruct F as [_ _ [HL _] _ Hr [_ Hirl0] _ Fa Fl _ _ _ [Ft1 Ft2] _].
     pose proof (calc_base_seven _ _ _ _ Hr Hct) as Hb.
     destruct (curve_defined_bounded (b_ir b) ur Hc Hv) as (base & Hb' & Hbb & _).
@@ -357,4 +357,33 @@ Proof.
     pose proof (accrue_conservation b pf now b' dt A L ur r irl irb Ha Hl Hta Htl ltac:(lia) F0) as C.
     exists irl. split; [lia|]. split; [right; left; exact Fa|].
     unfold Dv, Lv, Fv. rewrite Ft1, Ft2. rewrite <- HL. nia.
+Qed.
+
+(* accrual touches only share values, fee buckets and last_update *)
+Definition bank_cfg_same (b b' : bank) : Prop :=
+  b_ir b' = b_ir b /\ b_op_state b' = b_op_state b /\ b_flags b' = b_flags b /\
+  b_dep_limit b' = b_dep_limit b /\ b_bor_limit b' = b_bor_limit b /\ b_asset_tag b' = b_asset_tag b /\
+  b_decimals b' = b_decimals b /\ b_em_rate b' = b_em_rate b /\ b_em_rem b' = b_em_rem b /\
+  b_lend_cnt b' = b_lend_cnt b /\ b_bor_cnt b' = b_bor_cnt b.
+
+Lemma accrue_frame b pf now b' : accrue_interest b pf now = Ok b' -> bank_cfg_same b b'.
+Proof.
+  intros H. unfold accrue_interest in H.
+  apply bind_ok in H as (d & _ & H). apply bind_ok in H as (dt & _ & H).
+  destruct (dt =? 0). { apply Ok_inj in H. subst. repeat split. }
+  apply bind_ok in H as (ta & _ & H). apply bind_ok in H as (tl & _ & H).
+  destruct ((ta =? 0) || (tl =? 0)). { apply Ok_inj in H. subst. repeat split. }
+  apply bind_ok in H as (ch & _ & H). apply bind_ok in H as (dsv & _ & H). apply bind_ok in H as (acc & _ & H).
+  set (b2 := set_b_lsv (ac_lsv ch) (set_b_asv (ac_asv ch) (set_b_last_update now b))) in H.
+  apply bind_ok in H as (b3 & H3 & H). apply bind_ok in H as (b4 & H4 & H).
+  assert (E3 : bank_cfg_same b2 b3).
+  { destruct (0 <? ac_grp ch); [apply bind_ok in H3 as (g & _ & H3)|]; apply Ok_inj in H3; subst b3; repeat split. }
+  assert (E4 : bank_cfg_same b3 b4).
+  { destruct (0 <? ac_ins ch); [apply bind_ok in H4 as (g & _ & H4)|]; apply Ok_inj in H4; subst b4; repeat split. }
+  assert (E5 : bank_cfg_same b4 b').
+  { destruct (0 <? ac_prog ch); [apply bind_ok in H as (g & _ & H)|]; apply Ok_inj in H; subst b'; repeat split. }
+  assert (E2 : bank_cfg_same b b2) by (unfold b2; repeat split).
+  unfold bank_cfg_same in *.
+  destruct E2 as (?&?&?&?&?&?&?&?&?&?&?), E3 as (?&?&?&?&?&?&?&?&?&?&?), E4 as (?&?&?&?&?&?&?&?&?&?&?), E5 as (?&?&?&?&?&?&?&?&?&?&?).
+  repeat split; congruence.
 Qed.
